@@ -1,4 +1,184 @@
-import PieModel.Build.Pie
+/-
+Property C16 (determinism): the result of the build-system's graph and queue operations does
+not depend on the enumeration order of hash sets.
+
+In the Rust code the two change sets of `DAG::add_edge` are `HashSet`s (iteration order depends
+on random hash seeds) that `reorder_nodes` sorts by rank before use; the bottom-up `Queue` is
+sorted by rank before every pop.  The model passes lists; here it is proved that every result
+is a function of the *set* (multiset) only.
+
+Property statements only; the proofs are in `PieModel/Graph/SortPerm.lean` and
+`PieModel/Build/QueueLemmas.lean`.
+-/
+import PieModel.Graph.SortPerm
+import PieModel.Build.QueueLemmas
+import PieModel.Props.C10
+
 namespace PieModel
-theorem C16_placeholder : True := trivial
+open Dag
+
+variable {N E : Type}
+
+/-! ### sorting -/
+
+/-- `isortBy` returns a permutation of its input. -/
+theorem C16_isortBy_perm {α : Type} (key : α → Nat) (l : List α) : (isortBy key l).Perm l :=
+  isortBy_perm key l
+
+/-- `isortBy` returns a list sorted by `key`. -/
+theorem C16_isortBy_sorted {α : Type} (key : α → Nat) (l : List α) :
+    (isortBy key l).Pairwise (fun a b => key a ≤ key b) :=
+  isortBy_sorted key l
+
+/-- With a key that is injective on the input, `isortBy` does not depend on the input order. -/
+theorem C16_isortBy_perm_of_injOn {α : Type} (key : α → Nat) {l₁ l₂ : List α}
+    (hp : l₁.Perm l₂) (hinj : ∀ a ∈ l₁, ∀ b ∈ l₁, key a = key b → a = b) :
+    isortBy key l₁ = isortBy key l₂ :=
+  isortBy_perm_of_injOn key hp hinj
+
+/-- Set version: two duplicate-free enumerations of the same set sort to the same list. -/
+theorem C16_isortBy_set {α : Type} (key : α → Nat) {l₁ l₂ : List α}
+    (hn₁ : l₁.Nodup) (hn₂ : l₂.Nodup) (hmem : ∀ a, a ∈ l₁ ↔ a ∈ l₂)
+    (hinj : ∀ a ∈ l₁, ∀ b ∈ l₁, key a = key b → a = b) :
+    isortBy key l₁ = isortBy key l₂ :=
+  isortBy_eq_of_mem_iff key hn₁ hn₂ hmem hinj
+
+/-! ### `reorderNodes` -/
+
+/-- `reorderNodes` does not depend on the enumeration order of the two change sets.  Minimal
+hypothesis: the ranks are pairwise distinct inside `fwd` and inside `bwd`. -/
+theorem C16_reorder_perm_invariant (g : Dag N E) {fwd fwd' bwd bwd' : List Nat}
+    (hF : fwd.Perm fwd') (hB : bwd.Perm bwd')
+    (hiF : ∀ a ∈ fwd, ∀ b ∈ fwd, g.topoOf a = g.topoOf b → a = b)
+    (hiB : ∀ a ∈ bwd, ∀ b ∈ bwd, g.topoOf a = g.topoOf b → a = b) :
+    g.reorderNodes fwd bwd = g.reorderNodes fwd' bwd' :=
+  reorderNodes_perm_invariant g hF hB hiF hiB
+
+/-- Same, with the hypothesis discharged by well-formedness: change sets of live nodes. -/
+theorem C16_reorder_perm_invariant_live (g : Dag N E) (h : g.WF) {fwd fwd' bwd bwd' : List Nat}
+    (hF : fwd.Perm fwd') (hB : bwd.Perm bwd')
+    (hlF : ∀ x ∈ fwd, g.containsNode x = true) (hlB : ∀ x ∈ bwd, g.containsNode x = true) :
+    g.reorderNodes fwd bwd = g.reorderNodes fwd' bwd' :=
+  reorderNodes_perm_invariant g hF hB (h.topo_injOn hlF) (h.topo_injOn hlB)
+
+/-! ### `addEdge` -/
+
+/-- The backward search depends on the shared `visited` set only through membership. -/
+theorem C16_dfsBackward_visited_set (g : Dag N E) (s lb : Nat) {V V' : List Nat}
+    (hV : ∀ x, x ∈ V ↔ x ∈ V') : g.dfsBackward s V lb = g.dfsBackward s V' lb :=
+  dfsBackward_visited_congr g s lb hV
+
+/-- The two change sets computed inside `addEdge` are duplicate-free lists of live nodes of the
+intermediate graph (so their ranks are pairwise distinct) and are disjoint. -/
+theorem C16_addEdge_change_sets {g : Dag N E} (h : g.Inv) {s t : Nat} (d : E)
+    (hs : g.containsNode s = true) (ht : g.containsNode t = true)
+    (hc : t ∉ g.childrenOf s) (hlt : g.topoOf t < g.topoOf s) {F : List Nat}
+    (hF : (g.addEdgeG3 s t d).dfsForward t (g.topoOf s) = some F) :
+    (g.addEdgeG3 s t d).WF ∧ F.Nodup ∧
+      ((g.addEdgeG3 s t d).dfsBackward s F (g.topoOf t)).Nodup ∧
+      (∀ x ∈ F, (g.addEdgeG3 s t d).containsNode x = true) ∧
+      (∀ x ∈ (g.addEdgeG3 s t d).dfsBackward s F (g.topoOf t),
+        (g.addEdgeG3 s t d).containsNode x = true) ∧
+      (∀ x ∈ (g.addEdgeG3 s t d).dfsBackward s F (g.topoOf t), x ∉ F) :=
+  addEdge_dfs_sets h d hs ht hc hlt hF
+
+/-- The rank repair inside `addEdge` gives the same graph for *any* enumeration `F'` of the
+forward set, *any* enumeration `V'` of the visited set handed to the backward search and *any*
+enumeration `B'` of the resulting backward set. -/
+theorem C16_addEdge_reorder_order_independent {g : Dag N E} (h : g.Inv) {s t : Nat} (d : E)
+    (hs : g.containsNode s = true) (ht : g.containsNode t = true)
+    (hc : t ∉ g.childrenOf s) (hlt : g.topoOf t < g.topoOf s) {F F' V' B' : List Nat}
+    (hF : (g.addEdgeG3 s t d).dfsForward t (g.topoOf s) = some F)
+    (hF' : F'.Perm F) (hV' : ∀ x, x ∈ V' ↔ x ∈ F)
+    (hB' : B'.Perm ((g.addEdgeG3 s t d).dfsBackward s V' (g.topoOf t))) :
+    (g.addEdgeG3 s t d).reorderNodes F' B' =
+      (g.addEdgeG3 s t d).reorderNodes F ((g.addEdgeG3 s t d).dfsBackward s F (g.topoOf t)) :=
+  addEdge_reorder_order_independent h d hs ht hc hlt hF hF' hV' hB'
+
+/-- **`addEdge` is independent of the hash-set enumeration order**: re-enumerating the forward
+set by `permF` and the backward set by `permB` (any functions returning permutations) before
+the rank repair changes neither the resulting graph nor the verdict. -/
+theorem C16_addEdge_order_independent {g : Dag N E} (h : g.Inv)
+    {permF permB : List Nat → List Nat}
+    (hpF : ∀ l, (permF l).Perm l) (hpB : ∀ l, (permB l).Perm l) (s t : Nat) (d : E) :
+    Dag.addEdgeWith permF permB g s t d = g.addEdge s t d :=
+  addEdgeWith_eq_addEdge h hpF hpB s t d
+
+/-- … in every graph reachable through the public API. -/
+theorem C16_addEdge_order_independent_reachable (ops : List (Dag.GOp N E))
+    {permF permB : List Nat → List Nat}
+    (hpF : ∀ l, (permF l).Perm l) (hpB : ∀ l, (permB l).Perm l) (s t : Nat) (d : E) :
+    Dag.addEdgeWith permF permB (Dag.run ops) s t d = (Dag.run ops).addEdge s t d := by
+  exact addEdgeWith_eq_addEdge (C10_inv_reachable ops) hpF hpB s t d
+
+/-! ### the bottom-up queue -/
+
+/-- The sorted queue is a function of the multiset of queued (live) nodes and the ranks. -/
+theorem C16_queueSort_perm_invariant (st : Store) (h : st.g.Inv) {q q' : List Nat}
+    (hp : q.Perm q') (hl : ∀ n ∈ q, st.g.containsNode n = true) :
+    queueSort st q = queueSort st q' :=
+  queueSort_perm_invariant h.toWF hp hl
+
+/-- `Queue::pop` returns the same node *and the same remainder* for permuted queues. -/
+theorem C16_queuePop_perm_invariant (st : Store) (h : st.g.Inv) {q q' : List Nat}
+    (hp : q.Perm q') (hl : ∀ n ∈ q, st.g.containsNode n = true) :
+    queuePop st q = queuePop st q' :=
+  queuePop_perm_invariant h.toWF hp hl
+
+/-- `Queue::pop_least_task_with_dependency_from` returns the same node and the same remainder
+for permuted queues (a fortiori the remainders are permutations of each other). -/
+theorem C16_queuePopLeastFrom_perm_invariant (st : Store) (h : st.g.Inv) {q q' : List Nat}
+    (hp : q.Perm q') (hl : ∀ n ∈ q, st.g.containsNode n = true) (src : Nat) :
+    queuePopLeastFrom st q src = queuePopLeastFrom st q' src :=
+  queuePopLeastFrom_perm_invariant h.toWF hp hl src
+
+/-- The complete pop order is a function of the set of queued nodes. -/
+theorem C16_queueDrain_perm_invariant (st : Store) (h : st.g.Inv) {q q' : List Nat}
+    (hp : q.Perm q') (hl : ∀ n ∈ q, st.g.containsNode n = true) (f : Nat) :
+    queueDrain st f q = queueDrain st f q' :=
+  queueDrain_perm_invariant h.toWF hp hl f
+
+/-- Scheduling the same nodes in a different order yields a permutation of the same queue. -/
+theorem C16_queueAdd_order {q ns ns' : List Nat} (hq : q.Nodup) (hp : ns.Perm ns') :
+    (ns.foldl queueAdd q).Perm (ns'.foldl queueAdd q) :=
+  foldl_queueAdd_perm hq hp
+
+/-! ### non-vacuity -/
+
+/-- Two chains `0 → 1 → 2` (ranks 1, 2, 3) and `3 → 4 → 5` (ranks 4, 5, 6). -/
+def c16Graph : Dag Unit Unit :=
+  Dag.run [.addNode (), .addNode (), .addNode (), .addNode (), .addNode (), .addNode (),
+    .addEdge 0 1 (), .addEdge 1 2 (), .addEdge 3 4 (), .addEdge 4 5 ()]
+
+example : c16Graph.iterUnsorted = [(1, 0), (2, 1), (3, 2), (4, 3), (5, 4), (6, 5)] := by decide
+
+/-- The rank repair for the new edge `5 → 0` (forward set `{0,1,2}`, backward set `{3,4,5}`),
+with the two sets enumerated in two different orders: same ranks, and the ranks do change. -/
+example :
+    (c16Graph.reorderNodes [0, 1, 2] [5, 4, 3]).iterUnsorted
+      = (c16Graph.reorderNodes [2, 0, 1] [4, 3, 5]).iterUnsorted
+    ∧ (c16Graph.reorderNodes [0, 1, 2] [5, 4, 3]).iterUnsorted
+      = [(4, 0), (5, 1), (6, 2), (1, 3), (2, 4), (3, 5)] := by decide
+
+/-- `addEdge 5 0` on that graph computes exactly these two sets and repairs the ranks; with the
+sets reversed (`addEdgeWith List.reverse List.reverse`) the outcome is the same. -/
+example :
+    (c16Graph.addEdge 5 0 ()).1.iterUnsorted = [(4, 0), (5, 1), (6, 2), (1, 3), (2, 4), (3, 5)]
+    ∧ (Dag.addEdgeWith List.reverse List.reverse c16Graph 5 0 ()).1.iterUnsorted
+      = (c16Graph.addEdge 5 0 ()).1.iterUnsorted
+    ∧ (c16Graph.addEdge 5 0 ()).2.toOption = some true := by decide
+
+/-- The hypotheses of the main theorem are jointly satisfiable (the graph is reachable, hence
+satisfies the invariant). -/
+example : Dag.addEdgeWith List.reverse List.reverse c16Graph 5 0 () = c16Graph.addEdge 5 0 () :=
+  C16_addEdge_order_independent (C10_inv_reachable _) List.reverse_perm List.reverse_perm 5 0 ()
+
+/-- The hypothesis of `C16_reorder_perm_invariant` cannot be dropped: with two nodes of equal
+rank in one change set the enumeration order matters. -/
+def c16Bad : Dag Unit Unit :=
+  { nodes := [(0, ⟨3, (), [], []⟩), (1, ⟨3, (), [], []⟩), (2, ⟨5, (), [], []⟩)], last := 3, next := 3 }
+
+example : (c16Bad.reorderNodes [0, 1] [2]).iterUnsorted ≠
+    (c16Bad.reorderNodes [1, 0] [2]).iterUnsorted := by decide
+
 end PieModel
